@@ -119,10 +119,66 @@ theorem copyElems_ok (strict : Bool) (e : Node) (hwf : NodeWF e = true) : ∀ (r
       simp
 
 /-! ### map entries -/
+theorem beq_nil (x : Val) : (x == Val.nilptr) = x.isNilPtr := by
+  cases x <;> simp [BEq.beq, Val.beq, Val.isNilPtr]
+
+theorem isNilPtr_eq (x : Val) (h : x.isNilPtr = true) : x = .nilptr := by
+  cases x <;> simp [Val.isNilPtr] at h ⊢
+
+/-- What is known of the keys still to be copied (`rks`) against those already in the destination (`lks`):
+for a pointer-keyed map only that the nil pointer occurs once (non-nil pointer keys are appended whatever
+they point to), otherwise that all keys are distinct. -/
+def KeysInv (mk : Node) (lks rks : List Val) : Prop :=
+  (mk.ptr = true ∧ (∀ x ∈ lks, ∀ y ∈ rks, (x.isNilPtr && y.isNilPtr) = false) ∧ nilKeysOnce rks = true) ∨
+  ((∀ x ∈ lks, ∀ y ∈ rks, (x == y) = false) ∧ distinctKeys rks = true)
+
+theorem KeysInv_step (mk : Node) (lks : List Val) (rk : Val) (rks : List Val) (h : KeysInv mk lks (rk :: rks)) :
+    KeysInv mk (lks ++ [rk]) rks := by
+  rcases h with ⟨hp, h1, h2⟩ | ⟨h1, h2⟩
+  · left
+    simp only [nilKeysOnce, Bool.and_eq_true, Bool.or_eq_true, Bool.not_eq_true', List.all_eq_true] at h2
+    refine ⟨hp, ?_, h2.2⟩
+    intro x hx y hy
+    rcases List.mem_append.1 hx with hx | hx
+    · exact h1 x hx y (by simp [hy])
+    · have : x = rk := by simpa using hx
+      subst this
+      rcases h2.1 with h | h
+      · simp [h]
+      · have := h y hy
+        simp [this]
+  · right
+    simp only [distinctKeys, Bool.and_eq_true] at h2
+    refine ⟨?_, h2.2⟩
+    intro x hx y hy
+    rcases List.mem_append.1 hx with hx | hx
+    · exact h1 x hx y (by simp [hy])
+    · have : x = rk := by simpa using hx
+      subst this
+      exact (keyFresh_iff x rks).1 h2.1 y hy
+
+/-- Under the invariant the new entry is appended: by the pointer-key branch, or by `mapSet` on a fresh key. -/
+theorem KeysInv_set (mk : Node) (lks lvs : List Val) (rk : Val) (rks : List Val) (v : Val)
+    (hll : lks.length = lvs.length) (h : KeysInv mk lks (rk :: rks)) :
+    (if (mk.ptr && !rk.isNilPtr) = true then (lks ++ [rk], lvs ++ [v]) else mapSet lks lvs rk v) = (lks ++ [rk], lvs ++ [v]) := by
+  by_cases hc : (mk.ptr && !rk.isNilPtr) = true
+  · simp only [hc, if_true]
+  · simp only [hc, Bool.false_eq_true, if_false]
+    apply mapSet_fresh lks lvs rk v hll
+    rcases h with ⟨hp, h1, _⟩ | ⟨h1, _⟩
+    · have hn : rk.isNilPtr = true := by
+        simp only [hp, Bool.true_and, Bool.not_eq_true', Bool.not_eq_false] at hc
+        simpa using hc
+      have hrk := isNilPtr_eq rk hn
+      intro x hx
+      have := h1 x hx rk (by simp)
+      rw [hn, Bool.and_true] at this
+      rw [hrk, beq_nil]; exact this
+    · exact fun x hx => h1 x hx rk (by simp)
+
 theorem copyEntries_ok (strict : Bool) (mk mv : Node) (hwf : NodeWF mv = true) : ∀ (rvs rks lks lvs : List Val),
     (∀ x ∈ rvs, ElemQ x) → rks.length = rvs.length → lks.length = lvs.length →
-    WTall mv rvs = true → KeysOKall strict mv rvs = true →
-    (mk.ptr = true ∨ ((∀ x ∈ lks, ∀ y ∈ rks, (x == y) = false) ∧ distinctKeys rks = true)) →
+    WTall mv rvs = true → KeysOKall strict mv rvs = true → KeysInv mk lks rks →
     ∃ cvs, copyEntries GenCfg.fixed mk mv lks lvs rks rvs = .ok (.map false (lks ++ rks) (lvs ++ cvs)) 0 ∧
       All2 (ElemR strict mv) rvs cvs
   | [], rks, lks, lvs, _, hl, _, _, _, _ => by
@@ -133,31 +189,12 @@ theorem copyEntries_ok (strict : Bool) (mk mv : Node) (hwf : NodeWF mv = true) :
   | rv :: rvs, rk :: rks, lks, lvs, hq, hl, hll, hwt, hk, hdist => by
     simp only [WTall, KeysOKall, Bool.and_eq_true] at hwt hk
     have hqx := hq rv (by simp)
-    -- where the new entry goes
-    have hset : ∀ v : Val, (if mk.ptr = true then (lks ++ [rk], lvs ++ [v]) else mapSet lks lvs rk v) = (lks ++ [rk], lvs ++ [v]) := by
-      intro v
-      by_cases hp : mk.ptr = true
-      · simp [hp]
-      · simp only [hp, Bool.false_eq_true, if_false]
-        rcases hdist with h | ⟨h1, _⟩
-        · exact absurd h hp
-        · exact mapSet_fresh lks lvs rk v hll (fun x hx => h1 x hx rk (by simp))
+    have hset := fun v => KeysInv_set mk lks lvs rk rks v hll hdist
     have hrest : ∀ v, ∃ cvs, copyEntries GenCfg.fixed mk mv (lks ++ [rk]) (lvs ++ [v]) rks rvs =
         .ok (.map false ((lks ++ [rk]) ++ rks) ((lvs ++ [v]) ++ cvs)) 0 ∧ All2 (ElemR strict mv) rvs cvs := by
       intro v
-      apply copyEntries_ok strict mk mv hwf rvs rks (lks ++ [rk]) (lvs ++ [v]) (fun y hy => hq y (by simp [hy]))
-        (by simpa using hl) (by simp [hll]) hwt.2 hk.2
-      rcases hdist with h | ⟨h1, h2⟩
-      · exact Or.inl h
-      · right
-        simp only [distinctKeys, Bool.and_eq_true] at h2
-        refine ⟨?_, h2.2⟩
-        intro x hx y hy
-        rcases List.mem_append.1 hx with hx | hx
-        · exact h1 x hx y (by simp [hy])
-        · have : x = rk := by simpa using hx
-          subst this
-          exact (keyFresh_iff x rks).1 h2.1 y hy
+      exact copyEntries_ok strict mk mv hwf rvs rks (lks ++ [rk]) (lvs ++ [v]) (fun y hy => hq y (by simp [hy]))
+        (by simpa using hl) (by simp [hll]) hwt.2 hk.2 (KeysInv_step mk lks rk rks hdist)
     unfold copyEntries
     simp only [copyKey_fixed]
     by_cases hc : (mv.ptr && !mv.isBasicTyp) = true
@@ -181,6 +218,23 @@ theorem copyEntries_ok (strict : Bool) (mk mv : Node) (hwf : NodeWF mv = true) :
       refine ⟨v :: cvs, ?_, .cons hR hr⟩
       simp only [hc, Bool.false_eq_true, if_false, hv, bind_ok, hset, hc2]
       simp
+
+/-- The invariant at the start (empty destination map), from the hypothesis on the source's keys. -/
+theorem KeysInv_init (strict : Bool) (mk : Node) (rks : List Val)
+    (h : ((!strict && mk.ptr && nilKeysOnce rks) || distinctKeys rks) = true) : KeysInv mk [] rks := by
+  by_cases hd : distinctKeys rks = true
+  · exact Or.inr ⟨by simp, hd⟩
+  · left
+    simp only [hd, Bool.or_false, Bool.and_eq_true] at h
+    exact ⟨h.1.2, by simp, h.2⟩
+
+/-- The shape of the hypothesis `map_facts` uses. -/
+theorem keysHyp_weaken (strict : Bool) (mk : Node) (rks : List Val)
+    (h : ((!strict && mk.ptr && nilKeysOnce rks) || distinctKeys rks) = true) :
+    ((!strict && mk.ptr) || distinctKeys rks) = true := by
+  cases hd : distinctKeys rks
+  · simp only [hd, Bool.or_false, Bool.and_eq_true] at h ⊢; exact h.1
+  · simp
 
 /-! ### facts about the shapes the copy produces -/
 theorem scalar_refl (k : Kind) (w : Val) (h : wtScalar k w = true) :
@@ -377,15 +431,12 @@ theorem copyN_ok : ∀ r, CopyQ r := by
         subst h1
         have h2 : rvs = [] := by cases rvs <;> simp_all
         subst h2
-        exact copyQ_of _ _ _ _ _ _ (by simp [copyN]) (map_facts strict i mk mv nl lnl [] [] [] hi rfl hwk .nil hk.1)
+        exact copyQ_of _ _ _ _ _ _ (by simp [copyN]) (map_facts strict i mk mv nl lnl [] [] [] hi rfl hwk .nil (keysHyp_weaken strict mk _ hk.1))
       · obtain ⟨cvs, hce, hr⟩ := copyEntries_ok strict mk mv hwf.2 rvs rks [] []
           (fun x hx => elemQ_of _ ih x (size_map_v nl rks rvs x hx)) hlen rfl hwv hk.2
-          (by
-            by_cases hp : mk.ptr = true
-            · exact Or.inl hp
-            · right; exact ⟨by simp, by simpa [hp] using hk.1⟩)
+          (KeysInv_init strict mk rks hk.1)
         simp only [List.nil_append] at hce
-        refine copyQ_of _ _ _ _ _ _ ?_ (map_facts strict i mk mv nl false rks rvs cvs hi hlen hwk hr hk.1)
+        refine copyQ_of _ _ _ _ _ _ ?_ (map_facts strict i mk mv nl false rks rvs cvs hi hlen hwk hr (keysHyp_weaken strict mk _ hk.1))
         cases lnl <;> simp [copyN, hemp, hce]
     | basic i => rcases WT_basic_scalar i _ hwt with h | ⟨w, h⟩ | h <;> simp [isScalarV] at h
     | _ => simp [WT] at hwt
@@ -494,22 +545,19 @@ theorem copyN_ok : ∀ r, CopyQ r := by
         rcases hl' with hl | ⟨lnl, hl⟩
         · subst hl
           refine copyQ_of _ _ _ _ (.ptr (.map false [] [])) _ (by simp [copyN, Val.isNilPtr]) (ptr_lift strict _ _ _ hp ?_)
-          rw [withPtr_map]; exact map_facts strict _ mk mv nl false [] [] [] rfl rfl hwk .nil hk.1
+          rw [withPtr_map]; exact map_facts strict _ mk mv nl false [] [] [] rfl rfl hwk .nil (keysHyp_weaken strict mk _ hk.1)
         · subst hl
           refine copyQ_of _ _ _ _ (.ptr (.map lnl [] [])) _ (by simp [copyN, Val.isNilPtr]) (ptr_lift strict _ _ _ hp ?_)
-          rw [withPtr_map]; exact map_facts strict _ mk mv nl lnl [] [] [] rfl rfl hwk .nil hk.1
+          rw [withPtr_map]; exact map_facts strict _ mk mv nl lnl [] [] [] rfl rfl hwk .nil (keysHyp_weaken strict mk _ hk.1)
       · obtain ⟨cvs, hce, hr⟩ := copyEntries_ok strict mk mv hwf.2 rvs rks [] []
           (fun x hx => elemQ_of _ ih x (Nat.lt_trans (size_map_v nl rks rvs x hx) (size_ptr _))) hlen rfl hwv hk.2
-          (by
-            by_cases hpk : mk.ptr = true
-            · exact Or.inl hpk
-            · right; exact ⟨by simp, by simpa [hpk] using hk.1⟩)
+          (KeysInv_init strict mk rks hk.1)
         simp only [List.nil_append] at hce
         refine copyQ_of _ _ _ _ (.ptr (.map false rks cvs)) _ ?_ (ptr_lift strict _ _ _ hp ?_)
         · rcases hl' with hl | ⟨lnl, hl⟩
           · subst hl; simp [copyN, hemp, hce]
           · subst hl; cases lnl <;> simp [copyN, hemp, hce]
-        · rw [withPtr_map]; exact map_facts strict _ mk mv nl false rks rvs cvs rfl hlen hwk hr hk.1
+        · rw [withPtr_map]; exact map_facts strict _ mk mv nl false rks rvs cvs rfl hlen hwk hr (keysHyp_weaken strict mk _ hk.1)
     | slice i e =>
       rw [withPtr_slice] at hwr hk
       simp only [NodeWF] at hwf
